@@ -174,7 +174,15 @@ pub fn parse_event_stream(bytes: &[u8]) -> Result<Vec<Event>, String> {
 /* ------------------------------ generation ------------------------------ */
 
 fn gen_message(rng: &mut Rng, small: bool) -> (String, char) {
-    match rng.below(16) {
+    match rng.below(18) {
+        // every kind of line break mixed in one message (a normaliser that handles each kind alone may not handle them together)
+        16 => (rng.pick(&["head\r\nbody\rtail", "x\r\r\ny", "a\rb\r\nc\nd", "\r\n\r", "one\n\rtwo\r\n\nthree\r", "header\r\nbody\revent: pwned\rid: 666"]).to_string(), 'm'),
+        17 => {
+            // random text over a small alphabet rich in line breaks
+            let n = rng.range(1, 12);
+            let parts = ["\r", "\n", "\r\n", "a", "b ", ":", "data: ", "id: 7"];
+            ((0..n).map(|_| *rng.pick(&parts)).collect::<String>(), 'm')
+        }
         0 => (String::new(), 'e'),
         1 => ("line1\nline2".into(), 'n'),
         2 => ("a\rb".into(), 'r'),
